@@ -88,6 +88,40 @@ pub struct SheetExtra {
     pub tables: Vec<TableSpec>,
     /// `Spreadsheet::set_sheet_name` just before saving
     pub rename: Option<String>,
+    /// an image (`Image::new_image_with_dimensions` + `Worksheet::add_image`): drawing part,
+    /// drawing relationship, media part, png Default
+    #[serde(default)]
+    pub image: bool,
+    /// a line chart (`Chart::new_chart` + `Worksheet::add_chart`): drawing + chart parts
+    #[serde(default)]
+    pub chart: bool,
+}
+
+/// Sheet-list history applied after the sheets are built and renamed, before saving.
+/// Positions are raw values mapped monotonically onto the list as it is at that moment.
+#[derive(Debug, Clone, Serialize, Deserialize, PartialEq)]
+pub enum SheetOp {
+    /// the "copy sheet" idiom: `get_sheet(p).clone()`, `set_name`, `add_sheet` (appended);
+    /// the copy keeps the sheet-scoped names (their stored localSheetId is the source's),
+    /// its tables get fresh names, workbook-scope names kept in the sheet's list are dropped
+    /// from the copy (they would be duplicates)
+    Copy { src: u16, name: String },
+    /// a new empty sheet put at position `at` through `get_sheet_collection_mut()`
+    InsertNew { at: u16, name: String },
+    /// `get_sheet_collection_mut()`: remove at `from`, insert at `to`
+    Move { from: u16, to: u16 },
+}
+
+/// One sheet of the workbook as it is saved.
+#[derive(Debug, Clone, PartialEq)]
+pub struct Slot {
+    /// index into `annot.sheets` of the sheet this one is (a copy of); None = inserted empty
+    pub src: Option<usize>,
+    pub name: String,
+    /// the sheet was made by a Copy op
+    pub is_copy: bool,
+    /// what the copies have appended to the table names (`_c<n>` per copy generation)
+    pub table_suffix: String,
 }
 
 #[derive(Debug, Clone, Serialize, Deserialize)]
@@ -101,9 +135,41 @@ pub struct Case {
     /// findings (evidence only: the check does not depend on it)
     #[serde(default)]
     pub steered: Vec<String>,
+    #[serde(default)]
+    pub history: Vec<SheetOp>,
+    /// document properties (title, creator, description, keywords, company, manager): they
+    /// end up in docProps/core.xml and docProps/app.xml, which must be well-formed too
+    #[serde(default)]
+    pub doc_props: Vec<String>,
 }
 
 impl Case {
+    /// The sheet list at save time: kept sheets (renamed), then the history.
+    pub fn layout(&self) -> Vec<Slot> {
+        let mut l: Vec<Slot> = self.annot.kept().into_iter().map(|i| Slot { src: Some(i), name: self.final_name(i), is_copy: false, table_suffix: String::new() }).collect();
+        let mut copies = 0;
+        for op in &self.history {
+            match op {
+                SheetOp::Copy { src, name } => {
+                    let p = pick_idx(*src, l.len());
+                    copies += 1;
+                    let sl = Slot { src: l[p].src, name: name.clone(), is_copy: true, table_suffix: format!("{}_c{}", l[p].table_suffix, copies) };
+                    l.push(sl);
+                }
+                SheetOp::InsertNew { at, name } => {
+                    let p = pick_idx(*at, l.len() + 1);
+                    l.insert(p, Slot { src: None, name: name.clone(), is_copy: false, table_suffix: String::new() });
+                }
+                SheetOp::Move { from, to } => {
+                    let f = pick_idx(*from, l.len());
+                    let sl = l.remove(f);
+                    let t = pick_idx(*to, l.len() + 1);
+                    l.insert(t, sl);
+                }
+            }
+        }
+        l
+    }
     fn extra_of(&self, i: usize) -> SheetExtra {
         self.extra.get(i).cloned().unwrap_or_default()
     }
@@ -172,11 +238,89 @@ pub fn build(case: &Case) -> Spreadsheet {
             book.set_sheet_name(k, n).expect("generator produces distinct names");
         }
     }
+    // sheet-list history
+    let mut copies = 0;
+    for op in &case.history {
+        let n = book.get_sheet_count();
+        match op {
+            SheetOp::Copy { src, name } => {
+                let p = pick_idx(*src, n);
+                copies += 1;
+                let mut c = book.get_sheet(&p).unwrap().clone();
+                c.set_name(name.clone());
+                c.get_defined_names_mut().retain(|d| d.has_local_sheet_id());
+                for t in c.get_tables_mut().iter_mut() {
+                    let nn = format!("{}_c{}", t.get_name(), copies);
+                    t.set_name(&nn);
+                    t.set_display_name(&nn);
+                }
+                book.add_sheet(c).expect("generator produces distinct names");
+            }
+            SheetOp::InsertNew { at, name } => {
+                let p = pick_idx(*at, n + 1);
+                book.new_sheet(name.clone()).expect("generator produces distinct names");
+                let coll = book.get_sheet_collection_mut();
+                let ws = coll.pop().unwrap();
+                coll.insert(p, ws);
+            }
+            SheetOp::Move { from, to } => {
+                let f = pick_idx(*from, n);
+                let coll = book.get_sheet_collection_mut();
+                let ws = coll.remove(f);
+                let t = pick_idx(*to, coll.len() + 1);
+                coll.insert(t, ws);
+            }
+        }
+    }
+    // drawings: on the sheets as they are now (copies made above do not have them)
+    let layout = case.layout();
+    for (k, sl) in layout.iter().enumerate() {
+        let (Some(i), false) = (sl.src, sl.is_copy) else { continue };
+        let ex = case.extra_of(i);
+        if ex.image {
+            let mut marker = umya_spreadsheet::structs::drawing::spreadsheet::MarkerType::default();
+            marker.set_coordinate("M3");
+            let mut image = umya_spreadsheet::structs::Image::default();
+            image.new_image_with_dimensions(1, 1, "c02.png", TINY_PNG.to_vec(), marker);
+            book.get_sheet_mut(&k).unwrap().add_image(image);
+        }
+        if ex.chart {
+            let mut from = umya_spreadsheet::structs::drawing::spreadsheet::MarkerType::default();
+            let mut to = umya_spreadsheet::structs::drawing::spreadsheet::MarkerType::default();
+            from.set_coordinate("M6");
+            to.set_coordinate("R16");
+            let q = annot::quote_sheet(&sl.name);
+            let a = format!("{}!$A$1:$A$4", q);
+            let b = format!("{}!$B$1:$B$4", q);
+            let mut chart = umya_spreadsheet::structs::Chart::default();
+            chart.new_chart(umya_spreadsheet::structs::ChartType::LineChart, from, to, vec![a.as_str(), b.as_str()]);
+            book.get_sheet_mut(&k).unwrap().add_chart(chart);
+        }
+    }
     if let Some(m) = &case.macros {
         book.set_macros_code(m.clone());
     }
+    if !case.doc_props.is_empty() {
+        let pr = book.get_properties_mut();
+        for (k, v) in case.doc_props.iter().enumerate() {
+            match k {
+                0 => pr.set_title(v.clone()),
+                1 => pr.set_creator(v.clone()),
+                2 => pr.set_description(v.clone()),
+                3 => pr.set_keywords(v.clone()),
+                4 => pr.set_company(v.clone()),
+                _ => pr.set_manager(v.clone()),
+            };
+        }
+    }
     book
 }
+
+/// a 1x1 PNG
+const TINY_PNG: [u8; 67] = [
+    0x89, 0x50, 0x4E, 0x47, 0x0D, 0x0A, 0x1A, 0x0A, 0x00, 0x00, 0x00, 0x0D, 0x49, 0x48, 0x44, 0x52, 0x00, 0x00, 0x00, 0x01, 0x00, 0x00, 0x00, 0x01, 0x08, 0x06, 0x00, 0x00, 0x00, 0x1F, 0x15, 0xC4, 0x89, 0x00, 0x00, 0x00,
+    0x0A, 0x49, 0x44, 0x41, 0x54, 0x78, 0x9C, 0x63, 0x00, 0x01, 0x00, 0x00, 0x05, 0x00, 0x01, 0x0D, 0x0A, 0x2D, 0xB4, 0x00, 0x00, 0x00, 0x00, 0x49, 0x45, 0x4E, 0x44, 0xAE, 0x42, 0x60, 0x82,
+];
 
 // ---------------------------------------------------------------------------------------
 // model
@@ -267,55 +411,69 @@ fn mcell_of_spec(c: &CellSpec) -> MCell {
     m
 }
 
+fn msheet_of_spec(case: &Case, i: usize) -> MSheet {
+    let s = &case.annot.sheets[i];
+    let ex = case.extra_of(i);
+    let mut ms = MSheet {
+        name: case.final_name(i),
+        state: match s.state {
+            2 => "hidden",
+            3 => "veryHidden",
+            _ => "visible",
+        }
+        .to_string(),
+        worksheet: true,
+        ..MSheet::default()
+    };
+    let text_cell = |v: String| MCell { kind: "text".into(), value: v, ..MCell::default() };
+    // gen::annot's own table (named after the sheet id the sheet got when it was created)
+    if let Some(t) = &s.table {
+        let cols: Vec<String> = (t.c1..=t.c2).map(|c| format!("Col{}", c)).collect();
+        for (j, name) in cols.iter().enumerate() {
+            ms.cells.insert((t.r1, t.c1 + j as u32), text_cell(name.clone()));
+        }
+        ms.tables.insert(format!("Table_{}", i + 1), (canon_range(&t.a1_range()), cols));
+    }
+    for t in &ex.tables {
+        if t.header_cells {
+            for (j, name) in t.columns.iter().enumerate() {
+                ms.cells.insert((t.rect.r1, t.rect.c1 + j as u32), text_cell(name.clone()));
+            }
+        }
+        ms.tables.insert(t.name.clone(), (canon_range(&t.rect.a1_range()), t.columns.clone()));
+    }
+    for c in &ex.cells {
+        ms.cells.insert((c.row, c.col), mcell_of_spec(c));
+    }
+    ms.cells.retain(|_, c| !cell_is_void(c));
+    for l in &s.links {
+        ms.links.insert(
+            a1(l.col, l.row),
+            MLink {
+                external: !l.internal,
+                target: l.target.clone(),
+            },
+        );
+    }
+    for r in &s.merges {
+        ms.merges.insert(canon_range(&r.a1_range()));
+    }
+    for c in &s.comments {
+        ms.comments.insert(a1(c.col, c.row), (c.author.clone(), c.runs.concat()));
+    }
+    ms
+}
+
 pub fn model_of_spec(case: &Case, book: &Spreadsheet) -> Model {
     let mut m = Model::default();
-    for &i in &case.annot.kept() {
-        let s = &case.annot.sheets[i];
-        let ex = case.extra_of(i);
-        let mut ms = MSheet {
-            name: case.final_name(i),
-            state: match s.state {
-                2 => "hidden",
-                3 => "veryHidden",
-                _ => "visible",
-            }
-            .to_string(),
-            worksheet: true,
-            ..MSheet::default()
+    for sl in case.layout() {
+        let mut ms = match sl.src {
+            Some(i) => msheet_of_spec(case, i),
+            None => MSheet { state: "visible".into(), worksheet: true, ..MSheet::default() },
         };
-        for t in &ex.tables {
-            if t.header_cells {
-                for (j, name) in t.columns.iter().enumerate() {
-                    ms.cells.insert(
-                        (t.rect.r1, t.rect.c1 + j as u32),
-                        MCell {
-                            kind: "text".into(),
-                            value: name.clone(),
-                            ..MCell::default()
-                        },
-                    );
-                }
-            }
-            ms.tables.insert(t.name.clone(), (canon_range(&t.rect.a1_range()), t.columns.clone()));
-        }
-        for c in &ex.cells {
-            ms.cells.insert((c.row, c.col), mcell_of_spec(c));
-        }
-        ms.cells.retain(|_, c| !cell_is_void(c));
-        for l in &s.links {
-            ms.links.insert(
-                a1(l.col, l.row),
-                MLink {
-                    external: !l.internal,
-                    target: l.target.clone(),
-                },
-            );
-        }
-        for r in &s.merges {
-            ms.merges.insert(canon_range(&r.a1_range()));
-        }
-        for c in &s.comments {
-            ms.comments.insert(a1(c.col, c.row), (c.author.clone(), c.runs.concat()));
+        ms.name = sl.name.clone();
+        if !sl.table_suffix.is_empty() {
+            ms.tables = ms.tables.into_iter().map(|(k, v)| (format!("{}{}", k, sl.table_suffix), v)).collect();
         }
         m.sheets.push(ms);
     }
@@ -1096,65 +1254,156 @@ pub fn judge_bytes(bytes: &[u8], model: &Model, macros: Option<Option<&[u8]>>) -
 // ---------------------------------------------------------------------------------------
 // generated leg: check
 
-fn rel_bearing(case: &Case) -> (usize, usize, usize, usize) {
-    let mut ext = 0;
-    let mut com = 0;
-    let mut tab = 0;
-    let mut prn = 0;
-    for &i in &case.annot.kept() {
-        let s = &case.annot.sheets[i];
-        ext += s.links.iter().filter(|l| !l.internal).count();
-        com += s.comments.len();
-        tab += case.extra_of(i).tables.len();
-        prn += s.page.object_data.is_some() as usize;
+fn bucket(n: usize) -> &'static str {
+    match n {
+        0 => "0",
+        1 => "1",
+        2..=9 => "2-9",
+        10..=99 => "10-99",
+        _ => ">=100",
     }
-    (ext, com, tab, prn)
 }
 
+fn every_kind(s: &AnnotSheet, ex: &SheetExtra) -> bool {
+    !s.merges.is_empty()
+        && !s.names.is_empty()
+        && s.links.iter().any(|l| !l.internal)
+        && s.links.iter().any(|l| l.internal)
+        && !s.comments.is_empty()
+        && !s.validations.is_empty()
+        && !s.cond_formats.is_empty()
+        && s.auto_filter.is_some()
+        && s.protection.is_some()
+        && s.page.object_data.is_some()
+        && (!ex.tables.is_empty() || s.table.is_some())
+}
+
+static DISCARD_NOTED: std::sync::atomic::AtomicBool = std::sync::atomic::AtomicBool::new(false);
+
 fn check(case: &Case, obs: &mut Obs) -> Verdict {
+    let layout = case.layout();
     let kept = case.annot.kept();
-    let (ext, com, tab, prn) = rel_bearing(case);
-    let styled = !case.styles.is_empty() && kept.iter().any(|i| !case.extra_of(*i).styled.is_empty());
-    obs.nontrivial(kept.len() >= 2 || ext + com + tab + prn > 0 || case.macros.is_some() || styled);
+    let srcs: Vec<usize> = layout.iter().filter_map(|sl| sl.src).collect();
+    let styled = !case.styles.is_empty() && srcs.iter().any(|i| !case.extra_of(*i).styled.is_empty());
+    let mut rel_objects = 0;
+    let mut mix = 0;
+    let mut sheets_with_rels = 0;
+    for &i in &srcs {
+        let s = &case.annot.sheets[i];
+        let ex = case.extra_of(i);
+        let ext = s.links.iter().filter(|l| !l.internal).count();
+        let tabs = ex.tables.len() + s.table.is_some() as usize;
+        let n = ext + s.comments.len().min(1) * 2 + tabs + s.page.object_data.is_some() as usize + (ex.image || ex.chart) as usize;
+        rel_objects += n;
+        if n > 0 {
+            sheets_with_rels += 1;
+        }
+        if ext > 0 && !s.comments.is_empty() && tabs > 0 {
+            mix += 1;
+        }
+        obs.class(format!("sheet:extlinks:{}", bucket(ext)));
+        obs.class(format!("sheet:comments:{}", bucket(s.comments.len())));
+        obs.class(format!("sheet:tables:{}", bucket(tabs)));
+        obs.class(format!("sheet:relationships:{}", bucket(n)));
+        if every_kind(s, &ex) {
+            obs.class("sheet-with-every-object-kind");
+        }
+        if ex.image {
+            obs.class("drawing:image");
+        }
+        if ex.chart {
+            obs.class("drawing:chart");
+        }
+    }
+    obs.nontrivial(layout.len() >= 2 || rel_objects > 0 || case.macros.is_some() || styled);
     obs.class(if case.light { "writer:light" } else { "writer:standard" });
-    obs.class(format!("sheets-saved:{}", kept.len()));
+    obs.class(format!("sheets-saved:{}", bucket(layout.len())));
+    if layout.len() <= 6 {
+        obs.class(format!("sheets-saved={}", layout.len()));
+    }
     if kept.len() < case.annot.sheets.len() {
         obs.class("sheet-removed-before-save");
     }
     if kept.iter().any(|i| case.extra.get(*i).map_or(false, |e| e.rename.is_some())) {
         obs.class("sheet-renamed-before-save");
     }
-    if case.macros.is_some() {
-        obs.class("macro-payload");
+    for op in &case.history {
+        match op {
+            SheetOp::Copy { .. } => obs.class("history:copy"),
+            SheetOp::InsertNew { .. } => obs.class("history:insert"),
+            SheetOp::Move { .. } => obs.class("history:move"),
+        }
+    }
+    // a scoped name held by a sheet whose position differs from where it was created
+    // (below: removal in front; above: copy / insertion in front / move)
+    for (k, sl) in layout.iter().enumerate() {
+        if let Some(i) = sl.src {
+            if case.annot.sheets[i].names.iter().any(|n| n.local) {
+                if k > i {
+                    obs.class("scoped-name:holder-moved-back(stored id too low)");
+                } else if k < i {
+                    obs.class("scoped-name:holder-moved-forward(stored id too high)");
+                }
+                if sl.is_copy {
+                    obs.class("scoped-name:on-copied-sheet");
+                }
+            }
+        }
+        if sl.name.encode_utf16().count() == 31 {
+            obs.class("sheet-name:31-units");
+        }
+    }
+    if layout.len() == 2 {
+        let st: Vec<u8> = layout.iter().map(|sl| sl.src.map_or(0, |i| case.annot.sheets[i].state)).collect();
+        if st.contains(&3) && st.iter().any(|x| *x < 2) {
+            obs.class("sheets:veryHidden+visible-pair");
+        }
+    }
+    match &case.macros {
+        None => obs.class("macro:none"),
+        Some(m) if m.is_empty() => obs.class("macro:len0"),
+        Some(m) if m.len() == 1 => obs.class("macro:len1"),
+        Some(_) => obs.class("macro:len>1"),
     }
     if styled {
         obs.class("styled");
     }
-    let sheets_with_rels = kept
-        .iter()
-        .filter(|i| {
-            let s = &case.annot.sheets[**i];
-            s.links.iter().any(|l| !l.internal) || !s.comments.is_empty() || !case.extra_of(**i).tables.is_empty()
-        })
-        .count();
+    if !case.doc_props.is_empty() {
+        obs.class("doc-props-set");
+    }
+    if srcs.iter().any(|i| case.annot.sheets[*i].page.object_data.as_ref().map_or(false, |b| b.is_empty())) {
+        obs.class("printer-settings:len0");
+    }
+    obs.class(format!("styles:{}", bucket(case.styles.len())));
+    if case.styles.len() >= 65 {
+        obs.class("styles>=65");
+    }
     obs.class(format!("sheets-with-rels:{}", sheets_with_rels.min(3)));
-    let mix = kept
-        .iter()
-        .filter(|i| {
-            let s = &case.annot.sheets[**i];
-            s.links.iter().any(|l| !l.internal) && !s.comments.is_empty() && !case.extra_of(**i).tables.is_empty()
-        })
-        .count();
     if mix >= 1 {
         obs.class("sheet-with-extlink+comment+table");
     }
     if mix >= 2 {
         obs.class("two-sheets-with-extlink+comment+table");
     }
+    let mut texts: BTreeSet<&str> = BTreeSet::new();
+    let big = layout.len() > 8;
     for &i in &kept {
-        for c in case.extra_of(i).cells.iter() {
-            obs.class(format!("cell:{}", cell_feature(&mcell_of_spec(c))));
+        if let Some(ex) = case.extra.get(i) {
+            for c in ex.cells.iter() {
+                if !big {
+                    obs.class(format!("cell:{}", cell_feature(&mcell_of_spec(c))));
+                }
+                if let ValueSpec::Text(t) = &c.value {
+                    texts.insert(t.as_str());
+                    if t.chars().count() >= 32767 {
+                        obs.class("text:32767-chars");
+                    }
+                }
+            }
         }
+    }
+    if texts.len() >= 100 {
+        obs.class("shared-strings>=100");
     }
 
     for x in &case.steered {
@@ -1168,6 +1417,9 @@ fn check(case: &Case, obs: &mut Obs) -> Verdict {
     // the spec must agree with the API before saving, otherwise the case says nothing
     let pre = diff(&model, &model_of_book(&book));
     if let Some(d) = pre.first() {
+        if !DISCARD_NOTED.swap(true, std::sync::atomic::Ordering::Relaxed) {
+            eprintln!("HARNESS-NOTE: C02 generator/model mismatch before saving (case discarded): {} {}", d.key, truncate(&d.detail, 300));
+        }
         return Verdict::Discard(format!("pre-save model mismatch: {} {}", d.key, d.detail));
     }
     let bytes = match guard(|| save(&book, case.light)) {
@@ -1175,6 +1427,10 @@ fn check(case: &Case, obs: &mut Obs) -> Verdict {
         Ok(Err(e)) => return Verdict::fail("save/error", e),
         Err(p) => return Verdict::fail(format!("save/panic:{}", p.site()), p.short()),
     };
+    if let Ok(p) = std::env::var("VERIF_C02_KEEP") {
+        // debugging aid for replays: keep the written file
+        let _ = std::fs::write(&p, &bytes);
+    }
     let (discs, _) = judge_bytes(&bytes, &model, Some(case.macros.as_deref()));
     verdict_of(&discs)
 }
@@ -1348,7 +1604,12 @@ fn bare_sheet(state: u8, removed: bool) -> AnnotSheet {
 
 /// Sheets without annotations (1..4, states, some removed before saving).
 fn bare_wb() -> BoxedStrategy<AnnotWb> {
-    (sheet_names(6, 6), prop::collection::vec((0u8..4, prop::bool::weighted(0.12)), 1..=4), any::<u16>())
+    let sheets = prop_oneof![
+        8 => prop::collection::vec((0u8..4, prop::bool::weighted(0.12)), 1..=4),
+        // exactly one veryHidden and one visible sheet, in both orders
+        1 => prop::sample::select(vec![vec![(3u8, false), (0u8, false)], vec![(1u8, false), (3u8, false)]]),
+    ];
+    (sheet_names(6, 6), sheets, any::<u16>())
         .prop_map(|(names, sheets, active_raw)| {
             let wb = AnnotWb {
                 sheets: sheets.into_iter().map(|(s, r)| bare_sheet(s, r)).collect(),
@@ -1416,6 +1677,10 @@ struct Plan {
     macros: bool,
     renames: bool,
     dirty: bool,
+    /// sheet-list history before saving (copy / insert / move)
+    history: bool,
+    /// images and charts
+    drawings: bool,
 }
 
 fn cell_spec2(max_text: usize, grammar: bool) -> BoxedStrategy<CellSpec> {
@@ -1436,8 +1701,10 @@ fn sheet_extra(p: Plan) -> BoxedStrategy<SheetExtra> {
     let styled = if p.styles { prop::collection::vec((style_target(), any::<u16>()), 0..=8).boxed() } else { Just(Vec::new()).boxed() };
     let tables = if p.max_tables > 0 { table_specs(p.max_tables) } else { Just(Vec::new()).boxed() };
     let rename = if p.renames { prop::option::weighted(0.15, sheet_name()).boxed() } else { Just(None).boxed() };
-    (cells, styled, tables, rename)
-        .prop_map(|(cells, styled, tables, rename)| SheetExtra { cells, styled, tables, rename })
+    let dp = if p.drawings { 0.12 } else { 0.0 };
+    let flag = move || if dp > 0.0 { prop::bool::weighted(dp).boxed() } else { Just(false).boxed() };
+    (cells, styled, tables, rename, flag(), flag())
+        .prop_map(|(cells, styled, tables, rename, image, chart)| SheetExtra { cells, styled, tables, rename, image, chart })
         .boxed()
 }
 
@@ -1462,7 +1729,48 @@ fn fixup(mut case: Case) -> Case {
             dedupe_columns(&mut t.columns);
         }
     }
+    for (j, op) in case.history.iter_mut().enumerate() {
+        if let SheetOp::Copy { name, .. } | SheetOp::InsertNew { name, .. } = op {
+            if !names.insert(name.to_lowercase()) {
+                let base: String = name.chars().take(24).collect();
+                *name = sanitize_sheet_name(&format!("{}_h{}", base, j));
+                let mut k = 0;
+                while !names.insert(name.to_lowercase()) {
+                    k += 1;
+                    *name = format!("H{}_{}", j, k);
+                }
+            }
+        }
+    }
     case
+}
+
+fn history_ops(max: usize) -> BoxedStrategy<Vec<SheetOp>> {
+    let pos = prop_oneof![2 => Just(0u16), 1 => Just(u16::MAX), 3 => any::<u16>()];
+    let op = prop_oneof![
+        3 => (any::<u16>(), sheet_name()).prop_map(|(src, name)| SheetOp::Copy { src, name }),
+        1 => (Just(0u16), prop::sample::select(vec!["Sheet1 (2)", "Copy of data", "a (2)"])).prop_map(|(src, name)| SheetOp::Copy { src, name: name.to_string() }),
+        2 => (pos.clone(), sheet_name()).prop_map(|(at, name)| SheetOp::InsertNew { at, name }),
+        2 => (any::<u16>(), pos).prop_map(|(from, to)| SheetOp::Move { from, to }),
+    ];
+    prop_oneof![
+        3 => Just(Vec::new()),
+        3 => prop::collection::vec(op.clone(), 1..=1),
+        2 => prop::collection::vec(op, 1..=max),
+    ]
+    .boxed()
+}
+
+/// none / empty / one byte / a few hundred bytes / something that starts like a compound file
+fn macro_payload() -> BoxedStrategy<Option<Vec<u8>>> {
+    prop_oneof![
+        6 => Just(None),
+        1 => Just(Some(Vec::new())),
+        1 => any::<u8>().prop_map(|b| Some(vec![b])),
+        2 => prop::collection::vec(any::<u8>(), 2..400).prop_map(Some),
+        1 => Just(Some(b"\xD0\xCF\x11\xE0\xA1\xB1\x1A\xE1 not really a compound file".to_vec())),
+    ]
+    .boxed()
 }
 
 fn case_strategy(p: Plan, tier: Tier) -> BoxedStrategy<Case> {
@@ -1473,14 +1781,12 @@ fn case_strategy(p: Plan, tier: Tier) -> BoxedStrategy<Case> {
         _ => annot::links_wb(tier),
     };
     let styles = if p.styles { style::style_set(3, 3, 10, false) } else { Just(Vec::new()).boxed() };
-    let macros = if p.macros {
-        prop::option::weighted(0.35, prop_oneof![3 => prop::collection::vec(any::<u8>(), 1..200), 1 => Just(b"\xD0\xCF\x11\xE0\xA1\xB1\x1A\xE1 not really a compound file".to_vec())]).boxed()
-    } else {
-        Just(None).boxed()
-    };
+    let macros = if p.macros { macro_payload() } else { Just(None).boxed() };
+    let history = if p.history { history_ops(3) } else { Just(Vec::new()).boxed() };
     let st = if p.dirty { Steer::NONE } else { steer_clean() };
-    (annot, prop::collection::vec(sheet_extra(p), 6), styles, macros, any::<bool>())
-        .prop_map(move |(annot, extra, styles, macros, light)| steer_case(fixup(Case { annot, extra, styles, macros, light, steered: Vec::new() }), st))
+    let doc_props = if p.drawings { prop_oneof![2 => Just(Vec::new()), 1 => prop::collection::vec(plain_text(16), 1..=6)].boxed() } else { Just(Vec::new()).boxed() };
+    (annot, prop::collection::vec(sheet_extra(p), 6), styles, macros, any::<bool>(), history, doc_props)
+        .prop_map(move |(annot, extra, styles, macros, light, history, doc_props)| steer_case(fixup(Case { annot, extra, styles, macros, light, steered: Vec::new(), history, doc_props }), st))
         .boxed()
 }
 
@@ -1497,6 +1803,8 @@ fn strat_cells(t: Tier) -> BoxedStrategy<Case> {
             macros: false,
             renames: true,
             dirty: false,
+            history: true,
+            drawings: false,
         },
         t,
     )
@@ -1514,6 +1822,8 @@ fn strat_annot(t: Tier) -> BoxedStrategy<Case> {
             macros: false,
             renames: false,
             dirty: false,
+            history: true,
+            drawings: false,
         },
         t,
     )
@@ -1531,6 +1841,8 @@ fn strat_rels(t: Tier) -> BoxedStrategy<Case> {
             macros: true,
             renames: false,
             dirty: false,
+            history: true,
+            drawings: true,
         },
         t,
     )
@@ -1549,6 +1861,8 @@ fn strat_combined(t: Tier) -> BoxedStrategy<Case> {
             macros: true,
             renames: true,
             dirty: false,
+            history: true,
+            drawings: true,
         },
         t,
     )
@@ -1624,17 +1938,165 @@ fn strat_dirty_base(t: Tier) -> BoxedStrategy<Case> {
             macros: false,
             renames: false,
             dirty: true,
+            history: false,
+            drawings: false,
         },
         t,
     )
 }
 
+/// Fill in every object kind a sheet can carry that the generated sheet happens to lack.
+fn ensure_every_kind(s: &mut AnnotSheet) {
+    use annot::*;
+    let cell = |c: u32, r: u32| RectSpec { c1: c, r1: r, c2: c, r2: r };
+    if s.merges.is_empty() {
+        s.merges.push(RectSpec { c1: 20, r1: 40, c2: 21, r2: 41 });
+    }
+    if !s.names.iter().any(|n| n.local) {
+        s.names.push(NameSpec {
+            name: "_xlnm.Print_Area".into(),
+            local: true,
+            hidden: false,
+            text: NameText::Areas { areas: vec![AreaSpec { sheet: 0, rect: RectSpec { c1: 1, r1: 1, c2: 5, r2: 9 }, absolute: true }], via_add_address: false },
+        });
+    }
+    if !s.links.iter().any(|l| !l.internal) {
+        s.links.push(LinkSpec { col: 22, row: 40, internal: false, target: "https://example.com/every?a=1&b=2".into(), tooltip: None });
+    }
+    if !s.links.iter().any(|l| l.internal) {
+        s.links.push(LinkSpec { col: 23, row: 40, internal: true, target: "A1".into(), tooltip: None });
+    }
+    if s.comments.is_empty() {
+        s.comments.push(CommentSpec { col: 24, row: 40, author: "every".into(), runs: vec!["kind".into()], with_shape: true });
+    }
+    if s.validations.is_empty() {
+        s.validations.push(DvSpec {
+            sqref: vec![cell(25, 40)],
+            kind: 8,
+            operator: 1,
+            allow_blank: Some(true),
+            show_input: None,
+            show_error: None,
+            prompt_title: None,
+            prompt: None,
+            error_title: None,
+            error: None,
+            formula1: Some("1".into()),
+            formula2: Some("9".into()),
+        });
+    }
+    if !s.cond_formats.iter().any(|c| c.rules.iter().any(|r| r.dxf.is_some())) {
+        s.cond_formats.push(CfSpec {
+            sqref: vec![cell(26, 40)],
+            rules: vec![CfRuleSpec {
+                kind: 2,
+                operator: 5,
+                priority: 9999,
+                formula: Some("1".into()),
+                dxf: Some(DxfSpec { bold: true, italic: false, font_argb: Some("FFFF0000".into()), bg_argb: Some("FFFFFF00".into()), strike: false, border_style: 1, border_argb: None, border_sides: 0, align: 1, wrap: false }),
+                text: None,
+                percent: None,
+                bottom: None,
+                rank: None,
+                stop_if_true: None,
+                std_dev: None,
+                above_average: None,
+                equal_average: None,
+                time_period: 0,
+                visual: 0,
+                cfvo: Vec::new(),
+                colors: Vec::new(),
+            }],
+        });
+    }
+    if s.auto_filter.is_none() {
+        s.auto_filter = Some(RectSpec { c1: 1, r1: 1, c2: 4, r2: 9 });
+    }
+    if s.protection.is_none() {
+        let mut flags = vec![None; 16];
+        flags[0] = Some(true);
+        s.protection = Some(SheetProtSpec { flags });
+    }
+    if s.page.object_data.is_none() {
+        s.page.object_data = Some(vec![1, 2, 3, 4]);
+    }
+}
+
+/// Big numbers: 10..12 sheets (sheet10.xml, comments10.xml, table10.xml, rId10 in the
+/// workbook), a sheet with every object kind and >= 10 relationships, >= 100 shared strings,
+/// >= 65 cell styles (and custom number formats), one 32 767-character text, a 31-character
+/// sheet name, image + chart, macro payload of every length class.
+fn strat_bulk(t: Tier) -> BoxedStrategy<Case> {
+    let _ = t;
+    let small = (annot::url(), annot::author(), nonempty_text(12), prop::bool::weighted(0.3), 0u8..4);
+    (
+        (sheet_names(12, 12), annot::annot_sheet(10, Feat::CLEAN), prop::collection::vec(small, 9..=11), prop::collection::vec(annot::url(), 10..=14)),
+        (100usize..=300, "[a-z<&é ]{0,6}", prop::sample::select(vec!['x', 'é', '<', ' ', '😀']), 65usize..=90),
+        (table_specs(1), macro_payload(), any::<bool>(), history_ops(2), any::<u16>()),
+    )
+        .prop_map(|((mut names, mut first, others, urls), (n_strings, suffix, long_ch, n_styles), (tables, macros, light, history, active_raw))| {
+            // a sheet name of exactly 31 UTF-16 units
+            names[1] = format!("{:_<31}", names[1].chars().filter(|c| c.len_utf16() == 1).take(20).collect::<String>());
+            ensure_every_kind(&mut first);
+            first.state = 0;
+            first.removed_before_save = false;
+            for (k, u) in urls.into_iter().enumerate() {
+                let (col, row) = (40 + k as u32, 60);
+                if !first.links.iter().any(|l| (l.col, l.row) == (col, row)) {
+                    first.links.push(annot::LinkSpec { col, row, internal: false, target: u, tooltip: None });
+                }
+            }
+            let mut sheets = vec![first];
+            for (k, (u, author, text, printer, state)) in others.into_iter().enumerate() {
+                let mut sh = bare_sheet(state, false);
+                sh.links.push(annot::LinkSpec { col: 2, row: 2 + k as u32, internal: false, target: u, tooltip: None });
+                sh.comments.push(annot::CommentSpec { col: 3, row: 3, author, runs: vec![text], with_shape: true });
+                if printer {
+                    // printer-settings blobs of length 0, 1, 2
+                    sh.page.object_data = Some(vec![k as u8; k % 3]);
+                }
+                sheets.push(sh);
+            }
+            let n = sheets.len();
+            let wb = AnnotWb { sheets, active_tab: 0, set_active: false, wb_names: Vec::new(), wb_protection: None };
+            let annot = annot::normalise(wb, names, active_raw);
+            // styles: distinct custom number formats (numFmtId 164..), every one on a cell
+            let styles: Vec<StyleSpec> = (0..n_styles)
+                .map(|k| StyleSpec { numfmt: Some(style::NumFmtSpec::Code(format!("0.{}\"u{}\"", "0".repeat(1 + k % 7), k))), ..StyleSpec::default() })
+                .collect();
+            let mut e0 = SheetExtra::default();
+            for k in 0..n_strings {
+                e0.cells.push(CellSpec { col: 1 + (k % 4) as u32, row: 100 + (k / 4) as u32, value: ValueSpec::Text(format!("s{}{}", k, suffix)), formula: None });
+            }
+            e0.cells.push(CellSpec { col: 6, row: 100, value: ValueSpec::Text(std::iter::repeat(long_ch).take(if long_ch == '😀' { 16383 } else { 32767 }).collect()), formula: None });
+            for k in 0..n_styles {
+                let raw = (((k as u64) << 16) + n_styles as u64 - 1) / n_styles as u64;
+                e0.styled.push((StyleTarget::Cell(8 + (k % 5) as u32, 100 + (k / 5) as u32), raw.min(65535) as u16));
+            }
+            e0.tables = tables.clone();
+            e0.image = true;
+            e0.chart = true;
+            let mut extra = vec![e0];
+            for k in 1..n {
+                let mut e = SheetExtra::default();
+                e.tables = tables.clone();
+                e.image = k == 9;
+                e.chart = k == 10;
+                e.cells.push(CellSpec { col: 1, row: 1, value: ValueSpec::Text(format!("sheet {}", k + 1)), formula: None });
+                extra.push(e);
+            }
+            steer_case(fixup(Case { annot, extra, styles, macros, light, steered: Vec::new(), history, doc_props: vec![suffix.clone(), "A&B <c>".into(), "line1\nline2".into()] }), steer_clean())
+        })
+        .boxed()
+}
+
 fn subs() -> Vec<Box<dyn DynSub>> {
     vec![
-        Box::new(Sub { name: "cells", strategy: strat_cells, cases: (150, 4000), check, max_shrink_iters: 1500 }),
+        Box::new(Sub { name: "cells", strategy: strat_cells, cases: (120, 4000), check, max_shrink_iters: 1500 }),
         Box::new(Sub { name: "annot", strategy: strat_annot, cases: (120, 2000), check, max_shrink_iters: 1500 }),
         Box::new(Sub { name: "rels", strategy: strat_rels, cases: (250, 4000), check, max_shrink_iters: 1500 }),
         Box::new(Sub { name: "combined", strategy: strat_combined, cases: (150, 2500), check, max_shrink_iters: 1500 }),
+        Box::new(Sub { name: "bulk", strategy: strat_bulk, cases: (5, 60), check, max_shrink_iters: 300 }),
         Box::new(Sub { name: "dirty", strategy: strat_dirty, cases: (40, 600), check, max_shrink_iters: 1500 }),
     ]
 }
